@@ -7,17 +7,17 @@ PID = "C05"
 
 def run(tier, replay):
     res = wv.Result(PID, "model_checking", tier)
-    wv.design_runs(res, [("Tamper", "MC_Tamper", True), ("Tamper", "MC_Tamper_noD3", False)])
+    wv.design_runs(res, [("Tamper", "MC_Tamper", True), ("Tamper", "MC_Tamper_noD3", False)] + ([("Tamper", "MC_Tamper_deep", True)] if tier == "thorough" else []), workers=8 if tier == "thorough" else 4)
     if replay:
         events = json.load(open(replay))["replay"]["events"]
     else:
         if tier == "quick":
             jobs = [["tamper", 1, 0, 1, 0, 0], ["tamper", 2, 50, 2, 2, 0, "zt"], ["tamper", 4, 20, 3, 1, 0], ["tamper", 1, 150, 4, 0, 0, "zt"]]
         else:
-            jobs = [["tamper", T, n, (n + T) % 5, (n // 5 + T) % 3, 1] for T in (1, 2, 4) for n in (0, 20, 50, 70)] + \
-                   [["tamper", 2, 40, cm, hm, 0] for cm in range(5) for hm in range(3)]
+            jobs = [["tamper", T, n, (n + T) % 5, (n // 5 + T) % 3, 1] + (["zt"] if (n + T) % 2 else []) for T in (1, 2, 3, 4) for n in (0, 20, 50, 70, 100, 150)] + \
+                   [["tamper", 2, 40, cm, hm, 0] for cm in range(5) for hm in range(3)] + [["tamper", 16, 33, 1, 2, 0]]
         events = fl.collect(res, PID, jobs)
-    st, nfull = fl.judge(res, PID, events, full_sample=60 if tier == "quick" else 1500)
+    st, nfull = fl.judge(res, PID, events, full_sample=60 if tier == "quick" else 3000)
     ops = [e for e in events if e["e"] == "op"]
     keys = set((e["kind"], e["T"], len(e["oC"]), min(e["pos"], 200) if e["kind"] != "set" else (e["pos"], e["val"] > 255)) for e in ops)
     res.cov.update({"traces_validated_against_impl": len(ops), "evaluations": len(ops), "distinct_nontrivial": len(keys), "recomputed_with_real_hmac": nfull,
